@@ -199,6 +199,34 @@ theorem update_full_blocks_end_spec (n : Nat) :
   · exact (Nat.dvd_sub_mod n)
   · have := Nat.mod_lt n (show 0 < 16 by decide); omega
 
+/-- `Poly1305::update` with the length computation as a PARAMETER (the buffering code of `Model.Poly1305.update`, verbatim, with
+`split m.length` where the model has `m.length − m.length mod 16`) -/
+def updateWith (split : Nat → Nat) (st : Model.Poly1305.State) (input : Bytes) : Model.Poly1305.State :=
+  if !st.buffer.isEmpty then
+    let e := min (16 - st.buffer.length) input.length
+    let st := { st with buffer := st.buffer ++ input.take e }
+    if st.buffer.length < 16 then st
+    else
+      let st := Model.Poly1305.blocks st st.buffer false
+      let st := { st with buffer := [] }
+      let m := input.drop e
+      let fe := split m.length
+      let st := Model.Poly1305.blocks st (m.take fe) false
+      if fe < m.length then { st with buffer := st.buffer ++ m.drop fe } else st
+  else
+    let m := input
+    let fe := split m.length
+    let st := Model.Poly1305.blocks st (m.take fe) false
+    if fe < m.length then { st with buffer := st.buffer ++ m.drop fe } else st
+
+/-- instantiated with the expression TRANSLATED FROM THE SOURCE it is the model's `update`, for every state and input: the hand-written
+buffering model and the code agree on the one piece of arithmetic the buffering contains -/
+theorem updateWith_translated_eq_model (st : Model.Poly1305.State) (input : Bytes) :
+    updateWith Gen.Poly1305.update_full_blocks_end st input = Model.Poly1305.update st input := by
+  have h : Gen.Poly1305.update_full_blocks_end = fun n => n - n % 16 := funext update_full_blocks_end_eq
+  rw [h]
+  rfl
+
 example : Gen.Poly1305.update_full_blocks_end (2 ^ 32 + 16 + 5) = 2 ^ 32 + 16 := by decide
 
 /-- sanity test: RFC 8439 §2.5.2 ("Cryptographic Forum Research Group", 34 bytes: two blocks + a partial one) -/
